@@ -40,7 +40,7 @@ class MergeAbort(Exception):
     pass
 
 
-STD_STRUCTS = {'Range': ['start', 'end'], 'RangeInclusive': ['start', 'end', 'exhausted'], 'Pin': ['pointer']}
+STD_STRUCTS = {'Range': ['start', 'end'], 'RangeFrom': ['start'], 'RangeTo': ['end'], 'RangeInclusive': ['start', 'end', 'exhausted'], 'Pin': ['pointer']}
 
 STD_ENUMS = {
     'Option': [('None', 0, []), ('Some', 1, ['0'])],
@@ -96,7 +96,7 @@ def norm_ty(t):
     if t.startswith('['):
         j = match_close(t, 0)
         inner = t[1:j]
-        return pre + ('[;]' if '; ' in inner else '[]')
+        return pre + ('[;]' if find_top(inner, '; ') >= 0 else '[]')
     if t.startswith('('):
         return pre + '()'
     if t.startswith('dyn '):
